@@ -11,6 +11,7 @@ Definition d_khop (s : sx) : option (Z * option Z * bool * bool) :=
       match sx_bytes ip with
       | Some [] => Some (t, None, negb (d =? 0), negb (neg =? 0))
       | Some [198; 18; k; 2] => Some (t, Some k, negb (d =? 0), negb (neg =? 0))
+      | Some [253; 0; 0; 24; 0; k; 0; 0; 0; 0; 0; 0; 0; 0; 0; 2] => Some (t, Some k, negb (d =? 0), negb (neg =? 0))   (* fd00:18:k::2 *)
       | Some _ => Some (t, Some (-1), negb (d =? 0), negb (neg =? 0))
       | None => None
       end
@@ -32,11 +33,12 @@ Fixpoint all2k (a : list (Z * option Z * bool)) (b : list (Z * option Z * bool *
 
 Definition check_kern (prop : Z) (inp impl : sx) : sx :=
   match inp, impl with
-  | L [A 17; A n; A proto; A method; A port; A first; A last; A silent; A pstate], L [A status; A notsup; L hops] =>
+  | L [A 17; A n; A proto; A method; A port; A first; A last; A silent; A pstate6], L [A status; A notsup; L hops] =>
+      let pstate := pstate6 mod 4 in
       match dec_list d_khop hops with
       | Some hops =>
           let pa := mkPath n silent in
-          let cls := 1 + 2 * n + 16 * proto + 64 * method in
+          let cls := 1 + 2 * n + 16 * proto + 64 * method + 512 * (pstate6 / 4) in
           let sack_unavailable := (proto =? 1) && negb (pstate =? 0) in
           if (proto =? 1) && (method =? 2) && sack_unavailable then
             (* method sack against a target that cannot do SACK: fails as not supported *)
